@@ -495,7 +495,7 @@ class RefNcpAsh:
 
     def _frame(self, stuffed: bytes):
         try:
-            fr = decode_frame(unstuff(stuffed), max_data=128 + 5)
+            fr = decode_frame(unstuff(stuffed), max_data=220 + 5)  # current NCP firmware takes EZSP frames up to 220 bytes
         except Bad:
             self._st("rx_bad")
             if self.connected and not self.failed:
